@@ -144,7 +144,7 @@ ADDENDA = {
     "C01": " Also: the CSV writer sends a field's text out whole only on the edge where fieldNeedsQuotes is false, and otherwise in pieces cut at the next special character (R01.3f).",
     "C03": " Also: no in-place alteration reaches a value that is neither fresh nor the function's own parameter, with no frozen exception left for the indexed-assignment and json-parse sites (the analysis sees that a value is known to be a collection, or a merge of fresh values and known collections); indexed assignment installs no package-level singleton into a slot it then converts in place (R03.6).",
     "C05": " Also: the verbs do not consult the reader's NR/FNR other than for messages (R05.10); a value the verb keeps in its own state enters a record only as a copy (R05.11); a function given both a handle and the decompression flag hands the handle back unwrapped only where every decompressing value of the flag is excluded (R05.12).",
-    "C08": " Also: an evaluated value that is put into a map by the interpreter (map literals, emitf) is dominated by the absent test, as assignments are (R08.9b).",
+    "C08": " Also: an evaluated value that is put into a map by the interpreter (map literals, emitf) is dominated by the absent test, as assignments are (R08.9b); math-class functions of two or three arguments that are not table dispatches return absent for an absent argument in any position (abstract kind evaluation, R08.4b).",
     "C09": " Also: every sort call of the sort, top and sort-within-records verbs is a stable sort or a sort of plain strings (R09.9).",
     "C10": " Also: every sort call of the aggregating verbs is stable (R10.7); grouping keys joined through a helper or by hand in a buffer are covered by the injective-key rule (R10.6); ignoring the ok result of a selector is accepted only where every element is individually nil-tested (computed, not listed).",
     "C11": " Also: no selecting verb reads the reader's NR/FNR (R11.7).",
